@@ -19,6 +19,7 @@ Section Proofs.
   Notation move := (move P_eqb compile matches).
   Notation sound := (cache_sound compile).
   Notation verdict := (verdict compile matches).
+  Notation calls_of := (@calls_of P V R).
 
   (* ---- lists ---- *)
 
@@ -112,26 +113,30 @@ Section Proofs.
     move t st th p v = Some (st', th') ->
     sound (cache st') /\ tinv th' /\ threads st' = threads st /\ calls_of th' = calls_of th.
   Proof.
-    intros Hc [Hd Hl] Et. rewrite Et in Hl. unfold move, calls_of.
+    intros Hc [Hd Hl] Et. rewrite Et in Hl. unfold move, calls_of, tinv.
     destruct (at_pc th) eqn:Epc.
-    - destruct (writer st); [discriminate|]. intros [= <- <-]. simpl.
-      repeat split; try assumption. rewrite Et. exact I.
-    - intros [= <- <-]. simpl. repeat split; try assumption. rewrite Et. simpl.
+    - destruct (writer st); [discriminate|]. intros [= <- <-]. simpl. rewrite Et.
+      repeat split; assumption.
+    - intros [= <- <-]. simpl. rewrite Et. repeat split; try assumption.
       intros r Hr. now apply Hc.
-    - intros [= <- <-]. simpl. repeat split; try assumption. rewrite Et. simpl. exact Hl.
-    - intros [= <- <-]. simpl. repeat split; try assumption. rewrite Et. simpl.
-      destruct (loc th) as [r|] eqn:El; [|exact I]. f_equal. now apply Hl.
-    - intros [= <- <-]. simpl. repeat split; try assumption. rewrite Et. reflexivity.
+    - intros [= <- <-]. simpl. rewrite Et. repeat split; assumption.
+    - intros [= <- <-]. simpl. rewrite Et.
+      assert (Hloc : match (match loc th with Some _ => PMatch | None => PCompile end) with
+                     | PRLock | PRead | PCompile => True
+                     | PRUnlock | PTest => forall r, loc th = Some r -> r = compile p
+                     | _ => loc th = Some (compile p) end).
+      { destruct (loc th) as [r|] eqn:El; [|exact I]. f_equal. now apply Hl. }
+      repeat split; assumption.
+    - intros [= <- <-]. simpl. rewrite Et. repeat split; try assumption.
     - destruct (writer st); [discriminate|]. destruct (readers st); [|discriminate].
-      intros [= <- <-]. simpl. repeat split; try assumption. rewrite Et. exact Hl.
-    - rewrite Hl. intros [= <- <-]. simpl. repeat split; try assumption.
-      + now apply upd_sound.
-      + rewrite Et. exact Hl.
-    - intros [= <- <-]. simpl. repeat split; try assumption. rewrite Et. exact Hl.
-    - rewrite Hl. intros [= <- <-]. simpl. repeat split; try assumption.
+      intros [= <- <-]. simpl. rewrite Et. repeat split; assumption.
+    - rewrite Hl. intros [= <- <-]. simpl. rewrite Et. repeat split; try assumption.
+      now apply upd_sound.
+    - intros [= <- <-]. simpl. rewrite Et. repeat split; assumption.
+    - rewrite Hl. intros [= <- <-]. simpl. rewrite Et. simpl. repeat split; try assumption.
       + constructor; [reflexivity|assumption].
-      + rewrite Et. simpl. destruct rest as [|[q w] rest']; exact I.
-      + rewrite Et. simpl. rewrite <- app_assoc. reflexivity.
+      + destruct rest as [|[q w] rest']; exact I.
+      + rewrite <- app_assoc. reflexivity.
   Qed.
 
   Lemma step_inv t st :
@@ -192,65 +197,70 @@ Section Proofs.
 
   Lemma step_minv t st : minv st -> minv (step t st).
   Proof.
-    intros [Hr Hw]. unfold step.
-    destruct (nth_error (threads st) t) as [th|] eqn:En; [|split; assumption].
-    destruct (todo th) as [|[p v] rest] eqn:Et; [split; assumption|].
+    intros Hm. pose proof Hm as [Hr Hw]. unfold step.
+    destruct (nth_error (threads st) t) as [th|] eqn:En; [|exact Hm].
+    destruct (todo th) as [|[p v] rest] eqn:Et; [exact Hm|].
     pose proof (fun y => count_set_nth in_rsec (threads st) t th y En) as CR.
     pose proof (fun y => count_set_nth in_wsec (threads st) t th y En) as CW.
     pose proof (count_ge1 in_rsec (threads st) t th En) as GR.
     pose proof (count_ge1 in_wsec (threads st) t th En) as GW.
-    unfold move. unfold in_rsec, in_wsec in CR, CW, GR, GW.
+    assert (Hother : forall w th0 th', t <> w -> nth_error (threads st) w = Some th0 -> in_wsec th0 = true ->
+              exists th1, nth_error (set_nth (threads st) t th') w = Some th1 /\ in_wsec th1 = true).
+    { intros w th0 th' Hne En0 Hin0. exists th0. rewrite nth_error_set_nth_ne by assumption. tauto. }
+    unfold move. unfold in_rsec, in_wsec in *.
     destruct (at_pc th) eqn:Epc.
-    - destruct (writer st) eqn:Ew; [split; assumption|]. simpl. unfold minv; simpl.
-      specialize (CR (with_pc th PRead)). specialize (CW (with_pc th PRead)). simpl in CR, CW. split; lia.
-    - simpl. unfold minv; simpl.
+    - destruct (writer st) eqn:Ew; [exact Hm|]. unfold minv, in_rsec, in_wsec; simpl.
+      specialize (CR (with_pc th PRead)). specialize (CW (with_pc th PRead)).
+      simpl in CR, CW. split; lia.
+    - unfold minv, in_rsec, in_wsec; simpl.
       specialize (CR (with_loc th PRUnlock (cache st p))). specialize (CW (with_loc th PRUnlock (cache st p))).
-      simpl in CR, CW. split; [lia|]. destruct (writer st) as [w|]; [|lia].
-      destruct Hw as (H0 & H1 & th0 & En0 & Hin0). specialize (GR eq_refl). lia.
-    - simpl. unfold minv; simpl. specialize (GR eq_refl).
-      specialize (CR (with_pc th PTest)). specialize (CW (with_pc th PTest)). simpl in CR, CW.
+      simpl in CR, CW. specialize (GR eq_refl).
       split; [lia|]. destruct (writer st) as [w|]; [|lia]. destruct Hw as (H0 & _). lia.
-    - simpl. unfold minv; simpl.
-      set (th' := with_pc th (match loc th with Some _ => PMatch | None => PCompile end)).
-      assert (Er : in_rsec th' = false) by (unfold th', in_rsec; simpl; destruct (loc th); reflexivity).
-      assert (Ew : in_wsec th' = false) by (unfold th', in_wsec; simpl; destruct (loc th); reflexivity).
-      specialize (CR th'). specialize (CW th'). unfold in_rsec, in_wsec in Er, Ew. rewrite Er in CR. rewrite Ew in CW.
+    - unfold minv, in_rsec, in_wsec; simpl.
+      specialize (CR (with_pc th PTest)). specialize (CW (with_pc th PTest)).
+      simpl in CR, CW. specialize (GR eq_refl).
+      split; [lia|]. destruct (writer st) as [w|]; [|lia]. destruct Hw as (H0 & _). lia.
+    - unfold minv, in_rsec, in_wsec; simpl.
+      set (k := match loc th with Some _ => PMatch | None => PCompile end).
+      assert (Hk : k = PMatch \/ k = PCompile) by (unfold k; destruct (loc th); tauto).
+      specialize (CR (with_pc th k)). specialize (CW (with_pc th k)). simpl in CR, CW.
+      split; [destruct Hk as [-> | ->]; lia|]. destruct (writer st) as [w|]; [|destruct Hk as [-> | ->]; lia].
+      destruct Hw as (H0 & H1 & th0 & En0 & Hin0). split; [assumption|]. split; [destruct Hk as [-> | ->]; lia|].
+      destruct (Nat.eq_dec t w) as [->|Hne]; [|eapply Hother; eauto].
+      rewrite En in En0. injection En0 as <-. rewrite Epc in Hin0. discriminate.
+    - unfold minv, in_rsec, in_wsec; simpl.
+      specialize (CR (with_loc th PLock (Some (compile p)))). specialize (CW (with_loc th PLock (Some (compile p)))).
+      simpl in CR, CW.
       split; [lia|]. destruct (writer st) as [w|]; [|lia].
       destruct Hw as (H0 & H1 & th0 & En0 & Hin0). split; [assumption|]. split; [lia|].
-      destruct (Nat.eq_dec t w) as [->|Hne].
-      + rewrite En in En0. injection En0 as <-. unfold in_wsec in Hin0. rewrite Epc in Hin0. discriminate.
-      + exists th0. rewrite nth_error_set_nth_ne by assumption. tauto.
-    - simpl. unfold minv; simpl.
-      specialize (CR (with_loc th PLock (Some (compile p)))). specialize (CW (with_loc th PLock (Some (compile p)))).
-      simpl in CR, CW. split; [lia|]. destruct (writer st) as [w|]; [|lia].
-      destruct Hw as (H0 & H1 & th0 & En0 & Hin0). split; [assumption|]. split; [lia|].
-      destruct (Nat.eq_dec t w) as [->|Hne].
-      + rewrite En in En0. injection En0 as <-. unfold in_wsec in Hin0. rewrite Epc in Hin0. discriminate.
-      + exists th0. rewrite nth_error_set_nth_ne by assumption. tauto.
-    - destruct (writer st) eqn:Ew; [split; [assumption|rewrite Ew; assumption]|].
-      destruct (readers st) eqn:Erd; [|split; [rewrite Erd; assumption|rewrite Ew; assumption]].
-      simpl. unfold minv; simpl.
-      specialize (CR (with_pc th PWrite)). specialize (CW (with_pc th PWrite)). simpl in CR, CW.
+      destruct (Nat.eq_dec t w) as [->|Hne]; [|eapply Hother; eauto].
+      rewrite En in En0. injection En0 as <-. rewrite Epc in Hin0. discriminate.
+    - destruct (writer st) eqn:Ew; [exact Hm|].
+      destruct (readers st) eqn:Erd; [|exact Hm].
+      unfold minv, in_rsec, in_wsec; simpl.
+      specialize (CR (with_pc th PWrite)). specialize (CW (with_pc th PWrite)).
+      simpl in CR, CW.
       split; [lia|]. split; [reflexivity|]. split; [lia|].
       exists (with_pc th PWrite). split; [eapply nth_error_set_nth_eq; eauto|reflexivity].
-    - destruct (loc th) as [r|]; [|split; assumption]. simpl. unfold minv; simpl.
-      specialize (CR (with_pc th PUnlock)). specialize (CW (with_pc th PUnlock)). simpl in CR, CW.
-      split; [lia|]. destruct (writer st) as [w|]; [|specialize (GW eq_refl); lia].
-      destruct Hw as (H0 & H1 & th0 & En0 & Hin0). split; [assumption|]. split; [lia|].
-      destruct (Nat.eq_dec t w) as [->|Hne].
-      + exists (with_pc th PUnlock). split; [eapply nth_error_set_nth_eq; eauto|reflexivity].
-      + exists th0. rewrite nth_error_set_nth_ne by assumption. tauto.
-    - simpl. unfold minv; simpl. specialize (GW eq_refl).
-      specialize (CR (with_pc th PMatch)). specialize (CW (with_pc th PMatch)). simpl in CR, CW.
-      split; [lia|]. destruct (writer st) as [w|]; [|lia]. destruct Hw as (H0 & H1 & _). lia.
-    - destruct (loc th) as [r|]; [|split; assumption]. simpl. unfold minv; simpl.
-      set (th' := {| todo := tl (todo th); at_pc := PRLock; loc := None; done := (p, v, matches r v) :: done th |}).
-      specialize (CR th'). specialize (CW th'). simpl in CR, CW.
+    - destruct (loc th) as [r|]; [|exact Hm]. unfold minv, in_rsec, in_wsec; simpl.
+      specialize (CR (with_pc th PUnlock)). specialize (CW (with_pc th PUnlock)).
+      simpl in CR, CW. specialize (GW eq_refl).
       split; [lia|]. destruct (writer st) as [w|]; [|lia].
       destruct Hw as (H0 & H1 & th0 & En0 & Hin0). split; [assumption|]. split; [lia|].
-      destruct (Nat.eq_dec t w) as [->|Hne].
-      + rewrite En in En0. injection En0 as <-. unfold in_wsec in Hin0. rewrite Epc in Hin0. discriminate.
-      + exists th0. rewrite nth_error_set_nth_ne by assumption. tauto.
+      destruct (Nat.eq_dec t w) as [->|Hne]; [|eapply Hother; eauto].
+      exists (with_pc th PUnlock). split; [eapply nth_error_set_nth_eq; eauto|reflexivity].
+    - unfold minv, in_rsec, in_wsec; simpl.
+      specialize (CR (with_pc th PMatch)). specialize (CW (with_pc th PMatch)).
+      simpl in CR, CW. specialize (GW eq_refl).
+      split; [lia|]. destruct (writer st) as [w|]; [|lia]. destruct Hw as (H0 & H1 & _). lia.
+    - destruct (loc th) as [r|]; [|exact Hm]. unfold minv, in_rsec, in_wsec; simpl.
+      set (th' := {| todo := tl (todo th); at_pc := PRLock; loc := None; done := (p, v, matches r v) :: done th |}).
+      specialize (CR th'). specialize (CW th').
+      simpl in CR, CW.
+      split; [lia|]. destruct (writer st) as [w|]; [|lia].
+      destruct Hw as (H0 & H1 & th0 & En0 & Hin0). split; [assumption|]. split; [lia|].
+      destruct (Nat.eq_dec t w) as [->|Hne]; [|eapply Hother; eauto].
+      rewrite En in En0. injection En0 as <-. rewrite Epc in Hin0. discriminate.
   Qed.
 
   Lemma run_minv sched : forall st, minv st -> minv (run sched st).
